@@ -177,11 +177,27 @@ Definition window_release_all_replaced (pre : ostate) (st : ostep) : bool :=
   | _ => false
   end.
 
+(* same finding as the duplicate-key taint (C04-update-after-timeout-duplicates-key), seen at the step itself: the shim
+   sends an allocation WITH a node for a key that the application still lists as a bound allocation but whose request
+   was dropped by the placeholder timeout (removeAsksInternal("") removes the requests of allocated placeholders too);
+   the core finds no request, takes it for a recovered allocation and echoes a new allocation for a key that is bound *)
+Definition window_bound_without_request (pre : ostate) (st : ostep) : bool :=
+  match st_op st with
+  | OpAlloc r =>
+      negb (rq_foreign r) && negb (rq_node r =? 0) &&
+      match find_app pre (rq_app r) with
+      | Some a => memN (rq_key r) (map oa_key (ap_allocs a)) && negb (memN (rq_key r) (map oa_key (ap_requests a)))
+      | None => false
+      end
+  | _ => false
+  end.
+
 Definition classify (pre : ostate) (st : ostep) (taint : bool) (c : N) : N :=
   if (c =? 411) && window_stale_request pre st then 456 else
   if ((c =? 401) || (c =? 402)) && window_13 pre st then 450 else
   if ((c =? 401) || (c =? 495)) && window_dangling_swap pre st then 454 else
   if ((c =? 401) || (c =? 402) || (c =? 495)) && window_release_all_replaced pre st then 457 else
+  if (c =? 404) && window_bound_without_request pre st then 455 else
   if taint && taint_kind c then 455 else c.
 
 Fixpoint c04_steps (base i : N) (pre : ostate) (m : option mstate) (lost0 : list N) (taint0 : bool) (l : list ostep) : list (N * N) :=
